@@ -3,12 +3,14 @@
 //!   jvharness gen <property> <count> <seed>      request lines on stdout, strata on stderr
 //!   jvharness run <resolved-out> <answers-out>   requests on stdin, answered by the real code
 //!   jvharness direct <property> <count> <seed>   model-free predicates on the real code
+//!   jvharness sweep <property> <shard> <nshards> exhaustive model-free sweeps over all 2^32 values
 
 mod direct;
 mod gen;
 mod oracle;
 mod rng;
 mod run;
+mod sweep;
 
 use std::io::{BufRead, BufWriter, Write};
 
@@ -64,8 +66,14 @@ fn main() {
             let code = direct::run(prop, count, seed);
             std::process::exit(code);
         }
+        Some("sweep") => {
+            let prop = &args[2];
+            let shard: u64 = args[3].parse().expect("shard");
+            let nshards: u64 = args[4].parse().expect("nshards");
+            std::process::exit(sweep::run(prop, shard, nshards));
+        }
         _ => {
-            eprintln!("usage: jvharness gen|run|direct ...");
+            eprintln!("usage: jvharness gen|run|direct|sweep ...");
             std::process::exit(2);
         }
     }
